@@ -58,14 +58,15 @@ def stuckStr : WalkRes → String
   | .deadlock => "deadlocks"
   | .diverges => "diverges"
 
-def ptrStr (s : St String) (d : ClassDecl String) : String :=
+/-- the class the parent table of `d`'s published table was built for (`~`: a file without a class) -/
+def ptrStr (noClass : List String) (s : St String) (d : ClassDecl String) : String :=
   match s.tableOf up d.name with
   | none => "?"
   | some t =>
     match ptrOf s t with
     | none => "-"
     | some p => match s.tables[p]? with
-      | some tp => up tp.cls
+      | some tp => if noClass.contains (up tp.cls) then "~" else up tp.cls
       | none => "?"
 
 def runWith (rule : Rule) (args : List String) : String :=
@@ -87,7 +88,8 @@ def runWith (rule : Rule) (args : List String) : String :=
           | some w => (out ++ [s!"r:{rq.1}={stuckStr w}"], r.st, true)) ([], St.empty, false)
       if stuck then " ".intercalate out
       else
-        let ptrs := fl.filterMap fun (d, isClass) => if isClass then some s!"ptr:{up d.name}={ptrStr st d}" else none
+        let noClass := fl.filterMap fun (d, isClass) => if isClass then none else some (up d.name)
+        let ptrs := fl.filterMap fun (d, isClass) => if isClass then some s!"ptr:{up d.name}={ptrStr noClass st d}" else none
         " ".intercalate (out ++ ["locks=free"] ++ ptrs)
   | _ => "bad-case"
 
